@@ -33,6 +33,28 @@ def gen_cases(tier, seed):
                         reps = [(100 * (i + 1), bytes([0x7F, inv.sid, 0x78]) + (b'\x55' if i == 1 else b'')) for i in range(k)]
                         reps.append((100 * (k + 1), bytes([0x7F, inv.sid, code]) + tail))
                         yield cl.H(cfgv).call(inv.callid, inv.args, inv.blobs, reps).case(5000, inv.name)
+    # the edition changes which codes the client knows: every code under the 2006 and 2013 editions as well
+    from harness import isospec
+    for std in (2006, 2013):
+        usable = []
+        for inv in invocations():
+            cfgv = list(cl.DEFAULT_CFG)
+            for s, v in inv.cfg.items():
+                cfgv[s] = v
+            cfgv[cl.STD] = std
+            if inv.callid != 1 and isospec.expected(cl.H(cfgv).cfg, inv.callid, inv.args, inv.blobs)[0] == 'send':
+                usable.append(inv)
+        for inv in usable[::max(1, len(usable) // 12)]:      # a dozen services spread over the registry: the rule does not depend on the service
+            for code in range(256):
+                for ex in (1, 0):
+                    for k in (0, 2):
+                        cfgv = list(cl.DEFAULT_CFG)
+                        for s, v in inv.cfg.items():
+                            cfgv[s] = v
+                        cfgv[cl.EX_NEG], cfgv[cl.STD], cfgv[cl.HAS_CB] = ex, std, (1 if k else 0)
+                        reps = [(100 * (i + 1), bytes([0x7F, inv.sid, 0x78])) for i in range(k)]
+                        reps.append((100 * (k + 1), bytes([0x7F, inv.sid, code]) + (b'\x01' if k else b'')))
+                        yield cl.H(cfgv).call(inv.callid, inv.args, inv.blobs, reps).case(5000, inv.name + ' / edition %d' % std)
 
 
 def worker_init():
